@@ -97,7 +97,18 @@ var progs = []prog{
 		}
 		return []string{fmt.Sprintf("seen [] = i:%d", seen), fmt.Sprintf("sum [] = i:%d", sum)}
 	}},
+	// byte-identical to count.mtail under another name: a program in its own right (index nGrid; outside the sampled grid)
+	{"count2.mtail", "counter lines\n/$/ {\n  lines++\n}\n", func(fs map[string][]string) []string {
+		n := 0
+		for _, ls := range fs {
+			n += len(ls)
+		}
+		return []string{fmt.Sprintf("lines [] = i:%d", n)}
+	}},
 }
+
+// nGrid programs take part in the (program set x file set) grid; those after them appear in dedicated scenarios.
+const nGrid = 5
 
 var fileContents = map[string]string{"empty": "", "one": "1\n", "two": "1\n2\n", "tail": "1\n2", "blank": "\n", "endblank": "1\n\n", "midblank": "1\n\n2", "rev": "2\n1\n", "devnull": ""}
 var fileOrder = []string{"empty", "one", "two", "tail", "blank", "endblank", "midblank", "rev", "devnull"}
@@ -186,9 +197,9 @@ func main() {
 	mandatory := len(fileSets)
 	fileSets = append(fileSets, []string{"devnull", "two"}, []string{"devnull", "midblank"})
 	var progSets [][]int
-	for i := range progs {
+	for i := range progs[:nGrid] {
 		progSets = append(progSets, []int{i})
-		for j := i + 1; j < len(progs); j++ {
+		for j := i + 1; j < nGrid; j++ {
 			progSets = append(progSets, []int{i, j})
 		}
 	}
@@ -207,6 +218,10 @@ func main() {
 			}
 			scens = append(scens, &scen{name: strings.Join(pn, "+") + " on " + strings.Join(fs, "+"), progs: ps, files: fs})
 		}
+	}
+	// two program files with identical bytes: each counts every line
+	for _, fs := range [][]string{{"two"}, {"tail", "one"}} {
+		scens = append(scens, &scen{name: "count+count2(identical bytes) on " + strings.Join(fs, "+"), progs: []int{0, nGrid}, files: fs})
 	}
 	for _, s := range scens {
 		s := s
@@ -299,5 +314,5 @@ func main() {
 		"map iteration order is fixed to sorted key order by the engine",
 		"the one library goroutine that enters instrumented code (prometheus DescribeByCollect during MustRegister, on an empty store, while the registering thread waits) takes free locks directly and is not a scheduled thread",
 	}
-	gsx.Finish(c, "schedule exploration of the whole one-shot pipeline (mtail.New + Run: tailer, file streams, runtime fan-out, VMs, exporter) on real files: program sets of size 1-2 (thorough: all, plus two of size 3) from {line counter, counter by getfilename(), per-file gauge of the last number, a program whose last instruction is a stop taken on some lines, a program that raises runtime errors on some lines} × file sets of size 1-2 (thorough 3) from {empty, 1 line, 2 lines, unterminated last line, one blank line, trailing blank line, blank line in the middle with an unterminated tail, two lines of which the first stops the stopping program, a matching path that is a character device}; all schedules with <=1 deviation (thorough: 2 for single-program scenarios); Run returns, every controlled thread has finished, lines_total equals the number of lines, the final store equals the reference; distinct_nontrivial = schedules with >=1 deviation")
+	gsx.Finish(c, "schedule exploration of the whole one-shot pipeline (mtail.New + Run: tailer, file streams, runtime fan-out, VMs, exporter) on real files: program sets of size 1-2 (thorough: all, plus two of size 3) from {line counter, counter by getfilename(), per-file gauge of the last number, a program whose last instruction is a stop taken on some lines, a program that raises runtime errors on some lines}, and the pair of two program files with identical bytes, × file sets of size 1-2 (thorough 3) from {empty, 1 line, 2 lines, unterminated last line, one blank line, trailing blank line, blank line in the middle with an unterminated tail, two lines of which the first stops the stopping program, a matching path that is a character device}; all schedules with <=1 deviation (thorough: 2 for single-program scenarios); Run returns, every controlled thread has finished, lines_total equals the number of lines, the final store equals the reference; distinct_nontrivial = schedules with >=1 deviation")
 }
